@@ -232,3 +232,30 @@ def shipped_lists(ctx):
     aux = ctx.path("aux-lists.ndjson")
     ctx.drv("lists", "-out", aux)
     return {e["name"]: ["".join(chr(c) for c in w) for w in e["words"]] for e in vlib.read_ndjson(aux)}
+
+
+def run_sequences(ctx, seqs, name):
+    """Each sequence of scenarios runs in its own fresh process, in order."""
+    files, cells, leaves = [], 0, 0
+
+    def one(k):
+        return run_scenarios(ctx, seqs[k], "%s-seq%d" % (name, k), shards=1)
+    for f, c, l in vlib.parallel(one, range(len(seqs)), workers=vlib.NCPU):
+        files += f
+        cells += c
+        leaves += l
+    return files, cells, leaves
+
+
+def ctor_collision_sequences():
+    """Input lists that a process-wide memo of NewWordList keyed on a content fingerprint could confuse (same number of entries and
+    same concatenation, different word boundaries), constructed one after the other in ONE process, in both orders."""
+    pairs = [(["ab", "c"], ["a", "bc"]), (["zaz", "a", "zb"], ["za", "za", "zb"]), (["Polishpo", "lish", "five"], ["Polish", "polish", "five"]),
+             (["one", "two"], ["on", "etwo"]), (["x y", "z"], ["x", "y z"])]
+    mk = lambda ws: dict(kind="wl", wl=dict(words=[o(w) for w in ws], nolist=0, len=2, cap="first", sep="char", sepChar=o("-")), maxTrials=0, failRateOne=0,
+                         mode="tree", paths=0, maxLeaves=500, tag="ctor-collision", reps=0)
+    seqs = []
+    for a, b in pairs:
+        seqs.append([mk(a), mk(b), mk(a)])
+        seqs.append([mk(b), mk(a), mk(b)])
+    return seqs
